@@ -4,8 +4,8 @@ package run
 import (
 	"encoding/json"
 	"fmt"
-	"os"
 	"math/rand"
+	"os"
 	"runtime/debug"
 	"sort"
 	"time"
